@@ -59,15 +59,11 @@ namespace
         Hasher h;
         auto& c = grid.m_neighbors_indices_cache;
         using cache_t = std::decay_t<decltype(c)>;
-        if constexpr (cache_t::cache_width == 0)
+        if constexpr (!std::is_same_v<cache_t, fs::neighbors_cache<cache_t::cache_width == 0 ? 1 : cache_t::cache_width>>)
         {
-            // vector scratch (trimesh)
-            h.seq(c.m_node_neighbors);
-        }
-        else if constexpr (std::is_same_v<cache_t, fs::neighbors_no_cache<cache_t::cache_width>>)
-        {
-            // single scratch buffer: its content is left over from the last query; it is not
-            // observable through the API, so all states are equivalent
+            // pass-through storage (cache-less grids, meshes): scratch content left over
+            // from the last query is not observable through the API, so all states are
+            // equivalent
             h.pod(0);
         }
         else
